@@ -285,7 +285,16 @@ func driveC05(o opts) error {
 				uuids = append(uuids, u)
 			}
 			sort.Strings(uuids)
-			if g.Chance(0.7) {
+			if len(uuids) > 0 && g.Chance(0.07) {
+				// the cache is purged (a reconnection that cannot resume its monitors does this) and filled again by the
+				// steps that follow: nothing of the old rows may remain, in the rows or in any index
+				tc.Purge(db.Model)
+				rcache = tc.Table(T)
+				shadow = map[string]map[string]val.Val{}
+				stepTerm = "SPurge"
+				stepJ = map[string]interface{}{"purge": true}
+				w.Count("step:purge")
+			} else if g.Chance(0.7) {
 				// a batch applied through ApplyCacheUpdate in a PRNG-chosen order
 				for try := 0; ; try++ {
 					next := map[string]map[string]val.Val{}
